@@ -343,6 +343,36 @@ def check(case):
                       "%s: task %s gives %s here, but %s in an interpreter that has decoded nothing before: %s" % (
                           label, t.id, mine[1], fr[1], common.show_diff(mine[0], fr[0])))
                 break
+    # C12.g: the synthesized layout handed out for an encrypted parameter area, used as the type of a decode of its own
+    # (the area's bytes again, with and without the encryption flag): it must be that very type again, field by field
+    if int(__import__("hashlib").sha256(repr(sorted(t_.get("data", "")[:40] for t_ in dec)).encode()).hexdigest()[:4], 16) % 8 == 0:
+        from tpmstream.io.binary import Binary
+        for t_ in dec:
+            t = w.tasks[t_["id"]]
+            if t.cancelled or t.exc_sum is not None or t.spec["type"] not in ("Command", "Response") or t.spec.get("root_path"):
+                continue
+            if not t.spec.get("strict", True) or any(it[0] == "W" for it in t.items):
+                continue        # (a warn-mode decode of a malformed message: its area does not decode strictly, that is no news)
+            k_ = next((n_ for n_, it in enumerate(t.items) if it[0] == "S" and it[1] == ".parameters" and it[3] and it[3][0][1] == "TPM2B_ENCRYPTED_PARAM"), None)
+            if k_ is None:
+                continue
+            T_ = t.events[k_].type
+            sub = [(e_, it) for e_, it in zip(t.events[k_:], t.items[k_:]) if it[1] == ".parameters" or it[1].startswith(".parameters.")]
+            area = b"".join(e_.value.to_bytes() for e_, it in sub if it[0] == "P")
+            for flag in (True, None):
+                try:
+                    evs = list(Binary.marshal(tpm_type=T_, buffer=area, parameter_encryption=flag, abort_on_error=True))
+                except Exception as x_:  # noqa
+                    res.v("C12.g", "C12.g:area-decode-raised", "%s: the parameter area of %s decoded on its own under the type the library handed out for it (%s, parameter_encryption=%r) raised %s: %s" % (
+                        label, t.id, T_.__name__, flag, type(x_).__name__, str(x_)[:160]))
+                    break
+                res.count("synthesized-type-used-as-root-type")
+                bad_ = next((n_ for n_, (a_, (b_, _it)) in enumerate(zip(evs, sub)) if a_.type is not b_.type or (a_.value is not ... and a_.value != b_.value)), None)
+                if len(evs) != len(sub) or bad_ is not None:
+                    res.v("C12.g", "C12.g:another-type", "%s: the parameter area of %s decoded on its own under the type the library handed out for it (%s, parameter_encryption=%r) "
+                          "gives %d events (the message decode: %d); event %s has another declared type object / value" % (label, t.id, T_.__name__, flag, len(evs), len(sub), bad_))
+                    break
+            break
     if case["input"].get("probe") is not None:
         check_probe(res, case["input"]["probe"], label)
     else:
